@@ -47,8 +47,8 @@ P = {
    text='Deductive part: 96 obligations discharged for all creation histories without garbage collection (the invariant ranges over every node ever registered). GC interleavings, terminal nodes and "equal function iff same root" (Bryant canonicity, TB8) are decided by the bounded stand-in: seeded histories over pools of OBDDs with a scan of BDDNode.nodes() after every step.', note='WeakSet/GC semantics trusted (TB7)'),
  'C17': dict(level='exploration', ref='3/C17', tech='contract-based deductive verification (pyvc + z3) of __invert__ (both node classes), cache_restrict/compute_restrict, apply/compute and the three decomposition helpers against the denoted Boolean function (ghost denotation maintained by the node constructor); orderedness, reducedness of results, variables() and the OBDD wrapper: denotational run-time contracts + shape walk (bounded)',
    text='Deductive part: ~1,300 obligations: the result of ~f denotes the complement, of restrict the cofactor, of apply(op, f, g) op applied pointwise - for all nodes, all binary operators, all orderings and all cache contents that satisfy the cache invariant; result caches keyed by node identity handled by invariants; BDDTerminalNode.__new__ assumed. ' + B + 'expression pairs over <=4 variables, all orderings, all (v,b), truth tables on all assignments; ordered/reduced shape walk; variables(); ordering mismatches.', note='orderedness of results and the OBDD wrapper are bounded only; GC not modelled (TB7)'),
- 'C18': dict(level='exploration', ref='3/C18', tech='run-time contracts of the OBDD parser functions and printers (lambda vs expression, synonyms, print round trip, error classes)',
-   text=B + 'expressions to depth 4 over <=4 variables x argument orders; non-Boolean syntax list.', note='ast.parse trusted'),
+ 'C18': dict(level='exploration', ref='3/C18', tech='contract-based deductive verification (pyvc + z3) of the expression parser of BDD/OBDD.py (parse_binary_expr and its four helpers) against value_of(ast): the OBDD denotes the expression on every assignment, SyntaxError exactly outside the accepted syntax; lambda vs expression form, printers and their round trip: run-time contracts (bounded)',
+   text='Deductive part: ~1,350 obligations over Python ast nodes modelled as values with reader functions; and/or/not are synonyms of &,|,~ by the specification; n-ary and/or by fold invariants. ' + B + 'expressions to depth 4 over <=4 variables x argument orders (lambda vs expression, synonyms, print round trip, error classes); non-Boolean syntax list.', note='ast.parse trusted; identical OBDDs for equal functions need canonicity (TB8)'),
  'C19': dict(level='exploration', ref='3/C19', tech='safety obligations (pyvc + z3: no KeyError/IndexError/StopIteration/AttributeError/RuntimeError can leave the function, callee preconditions hold) and "the result is a new set of states of the caller\'s structure" on the CTL labelling functions, CTL.modelcheck (with and without F), the LTL.modelcheck wrapper and the CTL* reduction; run-time contract (fresh caller-owned set of states of K, heterogeneous states/labels) decides the rest (bounded)',
    text='Deductive part: ~550 safety obligations discharged for all structures and object formulas satisfying the arity invariant, with Python None not a state (KF-C19-1). Bounded stand-in: structures with str/tuple/mixed/None/float/frozenset states, non-string and operator-like labels, absent atoms; mutate result and call again.', note='RecursionError not claimed (resource bound)'),
 }
@@ -102,7 +102,7 @@ def main():
 
 
 NA = {}
-PYVC = {'C01', 'C02', 'C03', 'C04', 'C05', 'C07', 'C10', 'C13', 'C14', 'C15', 'C16', 'C17', 'C19'}
+PYVC = {'C01', 'C02', 'C03', 'C04', 'C05', 'C07', 'C10', 'C13', 'C14', 'C15', 'C16', 'C17', 'C18', 'C19'}
 
 if __name__ == '__main__':
     main()
